@@ -14,8 +14,8 @@ UNIV = ["1", "(+ 0 1)", "1.0", "1.0s0", "2", "2.5", "0", "0.0", "-3", "-3.0",
         "5", "#C(5 0)", "5.0", "#C(5.0 0.0)", "1/3", "(/ 1.0d0 3)", "0.5", "(list 5 1/2)", "(list #C(5 0) 0.5)"]
 TYPES = ["t", "number", "real", "rational", "integer", "fixnum", "bignum", "ratio", "float", "single-float", "double-float", "string",
          "symbol", "keyword", "character", "list", "cons", "null", "sequence", "vector", "array", "atom"]
-COERCE = [[0, "float"], [0, "double-float"], [0, "single-float"], [2, "integer"], [5, "rational"], [12, "float"], [10, "float"],
-          [14, "list"], [22, "vector"], [25, "list"], [20, "string"], [17, "string"], [0, "number"], [22, "list"], [14, "string"]]
+# every object of the universe coerced to every type name (most coercions are errors: the law is about the ones that succeed)
+COERCE = [[i, t] for i in range(len(UNIV)) for t in TYPES]
 KEYSETS = {"numbers": [0, 1, 2, 4], "strings": [14, 15, 16, 17], "chars-symbols": [20, 21, 17, 19], "zero-negative": [6, 7, 8, 9],
            "big-ratio": [10, 11, 12, 13], "lists": [22, 23, 24, 14], "vectors": [25, 26, 14, 0]}
 TESTS = ["eql", "equal", "equalp", "eq"]
